@@ -114,7 +114,7 @@ pub trait LayoutTrait/*+*/: LayoutSpec/*-*/ {
             queries@.len() <= 0xffff_ffff,
         ensures
             r.is_ok() <==> (table_decommit_ok(&commitment.original, fv(queries@), fv(decommitment.original.values@), fv(witness.original.vector.authentications@))
-                && table_decommit_ok(&commitment.interaction, fv(queries@), fv(decommitment.interaction.values@), fv(witness.interaction.vector.authentications@))), // [C01,C02:both-traces-decommit-against-their-roots]
+                && table_decommit_ok(&commitment.interaction, fv(queries@), fv(decommitment.interaction.values@), fv(witness.interaction.vector.authentications@))), // [C01,C02,C18:both-traces-decommit-against-their-roots]
     ;
     fn verify_public_input(public_input: &PublicInput) -> (r: Result<(Felt, Felt), PublicInputError>);
 }
